@@ -415,6 +415,10 @@ class PhysicsOrbit(OrbitBase):
             #   Otherwise it will be the stellar distance of the tidal host to the star. This is all handled in the
             #   get_stellar_distance method.
             stellar_distance = self.get_stellar_distance(world_signature)
+            if stellar_distance is None:
+                # The stellar distance has not been set yet (e.g., only the eccentricity is known so far).
+                log.debug(f'Can not calculate insolation heating for {world} until its stellar distance is set.')
+                return None
             stellar_eccentricity = self.get_stellar_eccentricity(world_signature)
             if stellar_eccentricity is None:
                 # Stellar eccentricity not set. Assume it is zero
